@@ -202,6 +202,22 @@ def handle : List String → String
       | some tx, some idx, some ht, some script => handleLegacy (op == "legacyapi") tx idx ht script
       | _, _, _, _ => "bad-op"
     else "bad-op"
+  | ["tapapi", tx, sp, idx, ht, annex, leaf] =>
+    -- exported CalcTaprootSignatureHash / CalcTapscriptSignaturehash (leaf = `ver:script`)
+    match tx? tx, spent? sp, idx.toNat?, u32? ht, annex? annex with
+    | some tx, some sp, some idx, some ht, some annex =>
+      if sp.length ≠ tx.ins.length then "bad-op" else
+      if leaf == "x" then handleTap tx sp idx ht none none else
+      match leaf.splitOn ":" with
+      | [v, sc] =>
+        match v.toNat?, hexToList? sc with
+        | some v, some sc =>
+          if v ≥ 256 then "bad-op" else
+          handleTap tx sp idx ht annex
+            (some ⟨Spec.tapLeafHash sha (UInt8.ofNat v) sc, 0, Spec.BLANK_CODESEP⟩)
+        | _, _ => "bad-op"
+      | _ => "bad-op"
+    | _, _, _, _, _ => "bad-op"
   | ["witnil", tx, idx, ht, sub, amt] =>
     match tx? tx, idx.toNat?, u32? ht, hexToList? sub, i64? amt with
     | some tx, some idx, some ht, some sub, some amt =>
